@@ -355,7 +355,8 @@ def materialise(t):
         os.makedirs(path, exist_ok=True)
         for f in node['files']:
             with open(os.path.join(path, f['name']), 'wb') as fh:
-                fh.write(f['content'].encode('latin-1'))
+                # 'enc': the codec the text of a source file is written with (gen/c19_clash.encode_file)
+                fh.write(f['content'].encode(f.get('enc') or 'latin-1'))
         for d in node['dirs']:
             rec(d, os.path.join(path, d['name']))
     rec(t, root)
@@ -369,7 +370,8 @@ def cleanup(root):
 def strip_tree(t):
     """JSON-able copy without the Def objects"""
     return {'name': t.get('name', ''),
-            'files': [{'name': f['name'], 'content': f['content']} for f in t['files']],
+            'files': [dict({'name': f['name'], 'content': f['content']},
+                           **({'enc': f['enc']} if f.get('enc') else {})) for f in t['files']],
             'dirs': [strip_tree(d) for d in t['dirs']]}
 
 
@@ -949,6 +951,8 @@ def run_search_case(ctx, t, q, complete, all_scopes, parse_limit, mode, reqs, ca
 def tree_to_wire(t):
     def f_(f):
         d = {'name': f['name'], 'content': f['content']}
+        if f.get('enc'):
+            d['enc'] = f['enc']
         if '_defs' in f:
             d['defs'] = [[x.name, x.type, x.line, x.col, x.top] for x in f['_defs']]
         return d
@@ -959,6 +963,8 @@ def tree_to_wire(t):
 def tree_from_wire(j):
     def f_(f):
         d = {'name': f['name'], 'content': f['content']}
+        if f.get('enc'):
+            d['enc'] = f['enc']
         if 'defs' in f:
             d['_defs'] = [Def(*x) for x in f['defs']]
         return d
@@ -1078,16 +1084,35 @@ def plan_clash(ctx, plan):
                               model=not has_stub)
 
 
+def plan_unicode(ctx, plan):
+    """identifiers with letters outside ASCII at the start / end / in the middle, files in several
+    encodings (UTF-8 with and without BOM, declared 8-bit and multi-byte codecs) and newline
+    conventions: gen/c19_clash.gen_unicode_tree; judged by the ast oracle (clash_oracle)"""
+    rng = ctx.subrng('unicode')
+    for i in range(ctx.size(8, 300)):
+        stubs = rng.random() < 0.25
+        t, stems = CL.gen_unicode_tree(rng, max_files=rng.choice([6, 10, 16]), stubs=stubs)
+        if rng.random() < 0.3:
+            add_gitignores(rng, t, density=0.2)
+        has_stub = any(rel.endswith('.pyi') for rel, _ in CL.src_files(t))
+        wire = write_wire(t)
+        mode = rng.choice(['real', 'sorted', 'reversed', 'shuffle%d' % rng.randint(0, 9)])
+        for q, complete in CL.unicode_queries(rng, t, stems, k=ctx.size(3, 6)):
+            for all_scopes in ((False, True) if rng.random() < 0.2 else (rng.random() < 0.5,)):
+                plan_case(plan, t, wire, q, complete, all_scopes, 30, mode, 'unicode', model=not has_stub)
+
+
 def judge_plan(ctx, plan, results, reqs, cases):
     for p, r in zip(plan, results):
         it, t, root = p['item'], p['t'], r['root']
         q, complete, all_scopes = it['string'], it['complete'], it['all_scopes']
         if r['impl'] is None:
             dotted = '.' in q.rpartition(' ')[2]
-            ctx.count(p['kind'] if p['kind'] == 'search' else 'clash-oracle', None, nontrivial=False,
+            ctx.count({'search': 'search', 'unicode': 'unicode-oracle'}.get(p['kind'], 'clash-oracle'), None,
+                      nontrivial=False,
                       bucket='exception:%s' % r['exc'] + ('/dotted' if dotted and p['kind'] != 'search' else ''))
             if not dotted and p['kind'] != 'search':
-                ctx.notes.append('clash: %s at %s for %r' % (r['exc'], r.get('exc_site'), q))
+                ctx.notes.append('%s: %s at %s for %s' % (p['kind'], r['exc'], r.get('exc_site'), ascii(q)))
             continue
         case = {'tree': strip_tree(t), 'string': q, 'complete': complete, 'all_scopes': all_scopes,
                 'parse_limit': it['parse_limit'], 'mode': it['mode']}
@@ -1095,8 +1120,9 @@ def judge_plan(ctx, plan, results, reqs, cases):
         if p['kind'] == 'search':
             search_oracle(ctx, t, root, case, q, complete, all_scopes, it['parse_limit'], impl4)
         else:
-            case['generator'] = 'clash'
-            clash_oracle(ctx, t, root, case, q, complete, all_scopes, it['parse_limit'], r['impl'])
+            case['generator'] = p['kind']
+            clash_oracle(ctx, t, root, case, q, complete, all_scopes, it['parse_limit'], r['impl'],
+                         stream='unicode-oracle' if p['kind'] == 'unicode' else 'clash-oracle')
         if r['req'] is not None:
             reqs.append(r['req'])
             cases.append((('search', case, root), impl4))
@@ -1106,6 +1132,7 @@ def stream_project_search(ctx, reqs):
     plan = []
     plan_search(ctx, plan)
     plan_clash(ctx, plan)
+    plan_unicode(ctx, plan)
     try:
         results = common.parallel_map('props.c19', 'search_worker', [p['item'] for p in plan])
     finally:
@@ -1143,7 +1170,8 @@ def clash_expected(t, q, complete, all_scopes):
     return defs, mods
 
 
-def clash_oracle(ctx, t, root, case, q, complete, all_scopes, parse_limit, impl5, quiet=False):
+def clash_oracle(ctx, t, root, case, q, complete, all_scopes, parse_limit, impl5, quiet=False,
+                 stream='clash-oracle'):
     """returns the list of (what, expected) that are missing (after reporting them)"""
     wt, _, word = q.rpartition(' ')
     got = {(os.path.relpath(mp, root), line, col, name, typ) for mp, line, col, name, typ in impl5}
@@ -1155,7 +1183,7 @@ def clash_oracle(ctx, t, root, case, q, complete, all_scopes, parse_limit, impl5
     if '.' in word or not word:
         # dotted strings go through inference: the property text quantifies over identifiers and
         # prefixes only - no completeness demand, the negative part above still applies
-        ctx.count('clash-oracle', key, nontrivial=False, bucket='dotted')
+        ctx.count(stream, key, nontrivial=False, bucket='dotted')
         return []
     missing = []
     regex = re.compile(r'\b' + re.escape(word) + (r'' if complete else r'\b'))
@@ -1173,11 +1201,14 @@ def clash_oracle(ctx, t, root, case, q, complete, all_scopes, parse_limit, impl5
                 own = rel.split('/')[-2] if '/' in rel else ''
             if sibling_prefix_cause(t, rel):
                 cause = 'sibling-prefix'
+            elif CL.edge_not_word_char(word, complete):
+                cause = 'query-edge-is-not-a-regex-word-character'
             else:
                 cause = 'unknown'
             missing.append(('definition', list(exp)))
             ctx.fail('search-complete', 'definition in a non-ignored file is not reported',
-                     dict(case, cause=cause, file=rel, file_named_like_query=(own == word)),
+                     dict(case, cause=cause, file=rel, file_named_like_query=(own == word),
+                          encoding=dict(CL.src_files(t))[rel].get('enc'), query_shape=CL.nonascii_shape(word)),
                      expected=list(exp),
                      observed={'results_in_file': sorted(list(g) for g in got if g[0] == rel)}, how=how)
     elif len({g[0] for g in got if g[4] != 'module'}) > parse_limit:
@@ -1205,6 +1236,15 @@ def clash_oracle(ctx, t, root, case, q, complete, all_scopes, parse_limit, impl5
                  dict(case, cause=cause, file=paths[0]), expected=[paths, 1, modname, 'module'],
                  observed={'module_results': sorted(list(g) for g in got if g[4] == 'module')}, how=how)
     clash = word in mod_names and any(d[3] == word or (complete and d[3].startswith(word)) for d in defs)
+    if stream == 'unicode-oracle':
+        encs = sorted({(f.get('enc') or '-') + ('+crlf' if '\r\n' in f['content'] else '+cr' if '\r' in f['content'] else '')
+                       for rel, f in CL.src_files(t) if any(d[0] == rel for d in defs)})
+        ctx.count(stream, key, nontrivial=bool(defs or mods),
+                  bucket=bucket + '/' + CL.nonascii_shape(word) + ('/not-a-word-edge' if CL.edge_not_word_char(word, complete) else ''))
+        for e in encs:                     # histogram only: files (encoding, newlines) holding an expected definition
+            h = ctx.hist.setdefault('unicode-encodings', {})
+            h[e] = h.get(e, 0) + 1
+        return missing
     ctx.count('clash-oracle', key, nontrivial=bool(defs or mods),
               bucket=bucket + ('/query-is-file-name' if word in mod_names else
                                '/query-is-prefix-of-file-name' if any(m.startswith(word) for m in mod_names)
